@@ -342,3 +342,191 @@ Proof.
       apply Bool.eq_iff_eq_true. rewrite !andb_true_iff, !Z.eqb_eq.
       rewrite (Same p y Hp Hy), (Same q x Hq Hx). tauto.
 Qed.
+
+(** ------------------------------------------------------------ counting by classes *)
+Definition class_of (g : graph) (s : Z) : list Z := filter (fun k => Z.eqb (rho g k) s) (node_keys g).
+Fixpoint sum_nat (l : list nat) : nat := match l with [] => 0%nat | x :: r => (x + sum_nat r)%nat end.
+
+Lemma indicator_sum (reps : list Z) v : NoDup reps -> In v reps ->
+  sum_nat (map (fun s => if Z.eqb v s then 1%nat else 0%nat) reps) = 1%nat.
+Proof.
+  induction reps as [|s r IH]; intros Hnd Hin; [contradiction|]. inversion Hnd as [|? ? Hs Hr]; subst. cbn.
+  destruct (Z.eqb_spec v s) as [-> |N].
+  - replace (sum_nat _) with 0%nat; [reflexivity|]. symmetry. clear - Hs.
+    induction r as [|t r IHr]; [reflexivity|]. cbn. destruct (Z.eqb_spec s t) as [-> |N]; [exfalso; apply Hs; now left|].
+    apply IHr. intro X. apply Hs. now right.
+  - destruct Hin as [E|Hin]; [congruence|]. exact (IH Hr Hin).
+Qed.
+Lemma partition_count (f : Z -> Z) (reps l : list Z) : NoDup reps -> (forall k, In k l -> In (f k) reps) ->
+  sum_nat (map (fun s => length (filter (fun k => Z.eqb (f k) s) l)) reps) = length l.
+Proof.
+  intros Hnd. induction l as [|k l IH]; intros H.
+  - clear. induction reps as [|s r IHr]; cbn; [reflexivity|exact IHr].
+  - assert (Split : forall rs, sum_nat (map (fun s => length (filter (fun k0 => Z.eqb (f k0) s) (k :: l))) rs)
+                      = (sum_nat (map (fun s => if Z.eqb (f k) s then 1%nat else 0%nat) rs)
+                         + sum_nat (map (fun s => length (filter (fun k0 => Z.eqb (f k0) s) l)) rs))%nat).
+    { induction rs as [|s r IHr]; [reflexivity|]. cbn [map sum_nat]. rewrite IHr. cbn [filter].
+      destruct (Z.eqb (f k) s); cbn [length]; lia. }
+    rewrite Split, (indicator_sum reps (f k) Hnd (H k (or_introl eq_refl))), IH by (intros k' Hk'; apply H; now right).
+    reflexivity.
+Qed.
+
+(** [squash_count_classes]: n_fine = n_total - sum over the classes of (|class| - 1): every atom belongs to the
+    class of exactly one surviving atom, every class contains its survivor *)
+Theorem squash_count_classes g g' : wf_graph g -> squash_atoms g = Ok g' ->
+  sum_nat (map (fun s => length (class_of g s)) (node_keys g')) = length g /\
+  (forall s, In s (node_keys g') -> In s (class_of g s)) /\
+  (length g' + sum_nat (map (fun s => (length (class_of g s) - 1)%nat) (node_keys g')) = length g)%nat.
+Proof.
+  intros W H. destruct (squash_quotient g g' W H) as (Wg & K & E & R).
+  assert (P : sum_nat (map (fun s => length (class_of g s)) (node_keys g')) = length g).
+  { unfold class_of. rewrite (partition_count (rho g) (node_keys g') (node_keys g) (wf_nodup _ Wg) R).
+    unfold node_keys. apply map_length. }
+  assert (S : forall s, In s (node_keys g') -> In s (class_of g s)).
+  { intros s Hs. rewrite K in Hs. apply filter_In in Hs as [Hs Rs]. unfold class_of. apply filter_In. auto. }
+  split; [exact P|]. split; [exact S|].
+  rewrite <- P. replace (length g') with (length (node_keys g')) by (unfold node_keys; apply map_length).
+  clear - S. induction (node_keys g') as [|s r IH]; [reflexivity|]. cbn [length map sum_nat].
+  assert (L : (1 <= length (class_of g s))%nat).
+  { specialize (S s (or_introl eq_refl)). destruct (class_of g s); [contradiction|cbn; lia]. }
+  specialize (IH (fun t Ht => S t (or_intror Ht))). lia.
+Qed.
+
+(** ------------------------------------------------------------ a decidable form of the hypotheses of share_vs_cut_many *)
+Definition shares_manyb (gd gs : graph) (pi : Z -> Z) : bool :=
+  let ks := node_keys gs in
+  let kd := node_keys gd in
+  forallb (fun p => forallb (fun q => Bool.eqb (Z.eqb (rho gs p) (rho gs q)) (Z.eqb (pi p) (pi q))) ks) ks
+  && forallb (fun a => forallb (fun b => Bool.eqb (has_edge gd a b) (qedge pi (dir_edges gs) a b)) kd) kd
+  && forallb (fun p => has_node gd (pi p)) ks
+  && forallb (fun a => existsb (fun p => Z.eqb (pi p) a) ks) kd.
+
+Lemma shares_manyb_sound gd gs pi : wf_graph gd -> wf_graph gs -> shares_manyb gd gs pi = true ->
+  (forall p q, In p (node_keys gs) -> In q (node_keys gs) -> (bconn (bang_items gs) p q <-> pi p = pi q)) /\
+  (forall a b, has_edge gd a b = qedge pi (dir_edges gs) a b) /\
+  (forall a, has_node gd a = true <-> exists p, In p (node_keys gs) /\ pi p = a).
+Proof.
+  intros Wd Ws H. unfold shares_manyb in H.
+  apply andb_true_iff in H as [H C4]. apply andb_true_iff in H as [H C3]. apply andb_true_iff in H as [C1 C2].
+  rewrite forallb_forall in C1, C2, C3, C4.
+  assert (H3 : forall a, has_node gd a = true <-> exists p, In p (node_keys gs) /\ pi p = a).
+  { intros a. split.
+    - intros Ha. apply has_node_keys in Ha. specialize (C4 a Ha). apply existsb_exists in C4 as (p & Hp & E).
+      apply Z.eqb_eq in E. eauto.
+    - intros (p & Hp & <-). exact (C3 p Hp). }
+  split; [|split; [|exact H3]].
+  - intros p q Hp Hq. rewrite <- rho_classes. specialize (C1 p Hp). rewrite forallb_forall in C1. specialize (C1 q Hq).
+    apply Bool.eqb_prop in C1. rewrite <- !Z.eqb_eq. rewrite C1. tauto.
+  - intros a b.
+    destruct (has_node gd a) eqn:Na; [destruct (has_node gd b) eqn:Nb|].
+    + apply has_node_keys in Na, Nb. specialize (C2 a Na). rewrite forallb_forall in C2. specialize (C2 b Nb).
+      apply Bool.eqb_prop in C2. exact C2.
+    + (* b is not an atom of gd *)
+      assert (L : has_edge gd a b = false).
+      { destruct (has_edge gd a b) eqn:X; [|reflexivity]. apply (wf_closed _ Wd) in X. congruence. }
+      rewrite L. symmetry. apply not_true_iff_false. unfold qedge. intro X. apply andb_true_iff in X as [_ X].
+      apply existsb_exists in X as ([p q] & Hin & X). cbn [fst snd] in X. apply andb_true_iff in X as [_ X]. apply Z.eqb_eq in X.
+      destruct (dir_edges_nodes gs p q Ws Hin) as [_ Hq]. pose proof (C3 q Hq) as Y. rewrite X in Y. congruence.
+    + assert (L : has_edge gd a b = false).
+      { destruct (has_edge gd a b) eqn:X; [|reflexivity]. apply has_edge_has_node in X. congruence. }
+      rewrite L. symmetry. apply not_true_iff_false. unfold qedge. intro X. apply andb_true_iff in X as [_ X].
+      apply existsb_exists in X as ([p q] & Hin & X). cbn [fst snd] in X. apply andb_true_iff in X as [X _]. apply Z.eqb_eq in X.
+      destruct (dir_edges_nodes gs p q Ws Hin) as [Hp _]. pose proof (C3 p Hp) as Y. rewrite X in Y. congruence.
+Qed.
+
+(** the theorem with its hypotheses in decidable form *)
+Corollary share_vs_cut_manyb gd gs pi g' : wf_graph gd -> wf_graph gs -> shares_manyb gd gs pi = true ->
+  squash_atoms gs = Ok g' ->
+  (forall y, In y (node_keys g') -> has_node gd (pi y) = true) /\
+  (forall a, has_node gd a = true -> exists y, In y (node_keys g') /\ pi y = a) /\
+  (forall y x, In y (node_keys g') -> In x (node_keys g') -> pi y = pi x -> y = x) /\
+  (forall y x, In y (node_keys g') -> In x (node_keys g') -> has_edge g' y x = has_edge gd (pi y) (pi x)).
+Proof.
+  intros Wd Ws Hb H. destruct (shares_manyb_sound gd gs pi Wd Ws Hb) as (H1 & H2 & H3).
+  exact (share_vs_cut_many gd gs pi g' Ws H H1 H2 H3).
+Qed.
+
+(** ------------------------------------------------------------ the shapes named in the property *)
+Definition pimap (l : list (Z * Z)) : Z -> Z := fun z => match find (fun p => Z.eqb (fst p) z) l with Some p => snd p | None => z end.
+
+(** (a) several shared atoms per fragment = a chain of shared atoms, two DIFFERENT shared atoms directly bonded
+    (both atoms of the middle fragment are shared): O0-C1 | C1-C2 | C2-O3 *)
+Definition gd_chain2 : graph :=
+  [atom_ 0 (S "O") false (VInt 1) 0 [(1, single_)];
+   atom_ 1 (S "C") false (VInt 2) 0 [(0, single_); (2, single_)];
+   atom_ 2 (S "C") false (VInt 2) 1 [(1, single_); (3, single_)];
+   atom_ 3 (S "O") false (VInt 1) 2 [(2, single_)]].
+Definition gs_chain2 : graph :=
+  [atom_ 0 (S "O") false (VInt 1) 0 [(1, single_)];
+   atom_ 1 (S "C") false (VInt 2) 0 [(0, single_); (2, bang_ (VInt 1))];
+   atom_ 2 (S "C") false (VInt 2) 1 [(1, bang_ (VInt 1)); (3, single_)];
+   atom_ 3 (S "C") false (VInt 2) 1 [(2, single_); (4, bang_ (VInt 1))];
+   atom_ 4 (S "C") false (VInt 2) 2 [(3, bang_ (VInt 1)); (5, single_)];
+   atom_ 5 (S "O") false (VInt 1) 2 [(4, single_)]].
+Definition pi_chain2 := pimap [(0, 0); (1, 1); (2, 1); (3, 2); (4, 2); (5, 3)].
+Example shape_several_per_fragment_bonded_shared_atoms :
+  wf_graph gd_chain2 /\ wf_graph gs_chain2 /\ shares_manyb gd_chain2 gs_chain2 pi_chain2 = true /\
+  exists g', squash_atoms gs_chain2 = Ok g' /\ node_keys g' = [0; 1; 3; 5] /\ neighbors g' 1 = [0; 3] /\ neighbors g' 3 = [1; 5] /\
+             squash_plan [] (bang_items gs_chain2) = [(1, 2); (3, 4)].
+Proof.
+  split; [apply wf_graphb_sound; vm_compute; reflexivity|]. split; [apply wf_graphb_sound; vm_compute; reflexivity|].
+  split; [vm_compute; reflexivity|]. eexists. split; [vm_compute; reflexivity|]. repeat split.
+Qed.
+
+(** (b) one atom shared by three fragments, as a star: A: C0-X | B: X | C: X-N4 *)
+Definition gd_three : graph :=
+  [atom_ 0 (S "C") false (VInt 3) 0 [(1, single_)];
+   atom_ 1 (S "C") false (VInt 2) 1 [(0, single_); (2, single_)];
+   atom_ 2 (S "N") false (VInt 2) 2 [(1, single_)]].
+Definition gs_star : graph :=
+  [atom_ 0 (S "C") false (VInt 3) 0 [(1, single_)];
+   atom_ 1 (S "C") false (VInt 2) 0 [(0, single_); (2, bang_ (VInt 1))];
+   atom_ 2 (S "C") false (VInt 2) 1 [(1, bang_ (VInt 1)); (3, bang_ (VInt 1))];
+   atom_ 3 (S "C") false (VInt 2) 2 [(2, bang_ (VInt 1)); (4, single_)];
+   atom_ 4 (S "N") false (VInt 2) 2 [(3, single_)]].
+Definition pi_three := pimap [(0, 0); (1, 1); (2, 1); (3, 1); (4, 2)].
+Example shape_atom_in_three_fragments_star :
+  wf_graph gd_three /\ wf_graph gs_star /\ shares_manyb gd_three gs_star pi_three = true /\
+  exists g', squash_atoms gs_star = Ok g' /\ node_keys g' = [0; 1; 4] /\ neighbors g' 1 = [0; 4] /\
+             node_get g' 1 (S "fragid") = Some (VList [VInt 0; VInt 1; VInt 2]) /\ class_of gs_star 1 = [1; 2; 3].
+Proof.
+  split; [apply wf_graphb_sound; vm_compute; reflexivity|]. split; [apply wf_graphb_sound; vm_compute; reflexivity|].
+  split; [vm_compute; reflexivity|]. eexists. split; [vm_compute; reflexivity|]. repeat split.
+Qed.
+
+(** (c) the same atom, every two of the three copies joined by a `!` pair (redundant third pair) *)
+Definition gs_tri : graph :=
+  [atom_ 0 (S "C") false (VInt 3) 0 [(1, single_)];
+   atom_ 1 (S "C") false (VInt 2) 0 [(0, single_); (2, bang_ (VInt 1)); (3, bang_ (VInt 1))];
+   atom_ 2 (S "C") false (VInt 2) 1 [(1, bang_ (VInt 1)); (3, bang_ (VInt 1))];
+   atom_ 3 (S "C") false (VInt 2) 2 [(1, bang_ (VInt 1)); (2, bang_ (VInt 1)); (4, single_)];
+   atom_ 4 (S "N") false (VInt 2) 2 [(3, single_)]].
+Example shape_atom_in_three_fragments_redundant :
+  wf_graph gd_three /\ wf_graph gs_tri /\ shares_manyb gd_three gs_tri pi_three = true /\
+  length (bang_items gs_tri) = 3%nat /\ length (squash_plan [] (bang_items gs_tri)) = 2%nat /\
+  exists g', squash_atoms gs_tri = Ok g' /\ node_keys g' = [0; 1; 4] /\ neighbors g' 1 = [0; 4].
+Proof.
+  split; [apply wf_graphb_sound; vm_compute; reflexivity|]. split; [apply wf_graphb_sound; vm_compute; reflexivity|].
+  split; [vm_compute; reflexivity|]. split; [reflexivity|]. split; [vm_compute; reflexivity|].
+  eexists. split; [vm_compute; reflexivity|]. repeat split.
+Qed.
+
+(** (d) a shared atom that also carries an ordinary `$` bond: A: C0-X | B: X ... $ ... N3 (fragment C) *)
+Definition gd_dollar : graph :=
+  [atom_ 0 (S "C") false (VInt 3) 0 [(1, single_)];
+   atom_ 1 (S "C") false (VInt 2) 1 [(0, single_); (2, dollar_)];
+   atom_ 2 (S "N") false (VInt 2) 2 [(1, dollar_)]].
+Definition gs_dollar : graph :=
+  [atom_ 0 (S "C") false (VInt 3) 0 [(1, single_)];
+   atom_ 1 (S "C") false (VInt 2) 0 [(0, single_); (2, bang_ (VInt 1))];
+   atom_ 2 (S "C") false (VInt 2) 1 [(1, bang_ (VInt 1)); (3, dollar_)];
+   atom_ 3 (S "N") false (VInt 2) 2 [(2, dollar_)]].
+Definition pi_dollar := pimap [(0, 0); (1, 1); (2, 1); (3, 2)].
+Example shape_shared_atom_with_dollar_bond :
+  wf_graph gd_dollar /\ wf_graph gs_dollar /\ shares_manyb gd_dollar gs_dollar pi_dollar = true /\
+  exists g', squash_atoms gs_dollar = Ok g' /\ node_keys g' = [0; 1; 3] /\ neighbors g' 1 = [0; 3] /\
+             edge_get g' 1 3 (S "bonding") = Some (VTup [VStr (S "$a1"); VStr (S "$a1")]).
+Proof.
+  split; [apply wf_graphb_sound; vm_compute; reflexivity|]. split; [apply wf_graphb_sound; vm_compute; reflexivity|].
+  split; [vm_compute; reflexivity|]. eexists. split; [vm_compute; reflexivity|]. repeat split.
+Qed.
